@@ -43,7 +43,7 @@ def teardown(ctx):
 
 
 DIRS = ["", "a", "a/b", "c", "a/b/d", "c/e"]
-HEADS = ["Alpha Beta", "Same", "Same", "Gamma `code`", "Ünï cödé", "Delta!", "Same 1", "Same 2", "Same", "same-1"]  # duplicates next to titles that look like suffixed duplicates
+HEADS = ["Alpha Beta", "Same", "Same", "Gamma `code`", "Ünï cödé", "Delta!", "Same 1", "Same 2", "Same", "same-1", "Maße und Größe", "Οδός Ερμής", "ﬁne ligature", "ǅungla İstanbul"]  # duplicates next to titles that look like suffixed duplicates
 
 
 def make_project(R):
